@@ -17,6 +17,7 @@ import (
 	"verif/harness/ref"
 	"verif/harness/refmodel"
 	"verif/harness/wire"
+	"verif/harness/xtree"
 )
 
 type gated struct {
@@ -265,6 +266,35 @@ func checkEncodeDecode(c *core.Ctx, msg any, minor int, label string) bool {
 	if !ok {
 		return false
 	}
+	// the same gate holds whatever the encoding: the XML and JSON documents, read by the harness's own
+	// readers, must carry exactly the layout valid at this version
+	exp, err := refmodel.Tree(msg, minor)
+	if err != nil {
+		panic(err)
+	}
+	for _, f := range []struct {
+		name    string
+		marshal func(any) []byte
+		parse   func([]byte) (wire.Node, error)
+	}{{"xml", ttlv.MarshalXML, xtree.ParseXML}, {"json", ttlv.MarshalJSON, xtree.ParseJSON}} {
+		var doc []byte
+		if p, v, st := core.Guard(func() { doc = f.marshal(msg) }); p {
+			c.Violation(core.PanicSig(v, st), fmt.Sprintf("%s encoder panicked: %v", f.name, v), map[string]any{"case": label, "stack": st})
+			return false
+		}
+		c.Count("text_encoding_checks", 1)
+		tree, perr := f.parse(doc)
+		if perr != nil {
+			c.Violation("C05:"+f.name+":unreadable", fmt.Sprintf("the %s document cannot be read by the independent reader: %v", f.name, perr), map[string]any{"case": label, "document": string(doc)})
+			return false
+		}
+		if d := wire.DiffD(exp, tree); d.Kind != "" {
+			c.Violation(fmt.Sprintf("C05:encode@1.%d:%s:%s:%s", minor, f.name, d.Kind, c01.Where(d)),
+				fmt.Sprintf("the %s encoding for version 1.%d does not carry exactly the elements valid at that version: %s in %s", f.name, minor, d.Detail, c01.Where(d)),
+				map[string]any{"case": label, "document": string(doc)})
+			return false
+		}
+	}
 	// decode side: the full (1.4) encoding with its header version rewritten to `minor` must
 	// decode completely.
 	setVersion(msg, 4)
@@ -311,11 +341,11 @@ func Spec() *core.Spec {
 		Level: "exploration",
 		Rule: "exhaustive matrix: every pinned version-dependent field (61 in 20 structures) x version 1.0..1.4 x populated/unpopulated x 6 seeded surrounding contexts " +
 			"(directly in its payload, in a batch of three at each position, CryptographicParameters as attribute value / inside KeyWrappingData of an object / inside a KeyWrappingSpecification, headers with and without authentication), " +
-			"plus seeded random messages whose gated fields are populated regardless of version; each encoded and compared with the reference layout at that version, " +
+			"plus seeded random messages whose gated fields are populated regardless of version; each encoded in binary, XML and JSON and compared with the reference layout at that version (text documents read by the harness's own readers), " +
 			"and the full 1.4 encoding with rewritten header version decoded; plus a diff of the version= annotations present in the tree against the pin. " +
 			"distinct = distinct expected layout shapes",
 		Assumptions: []string{"/verif/ref/version_gates.json is the pinned reading of KMIP 1.0-1.4 for the 61 fields; a field gated by the specification but unknown to both the library and the pin is invisible"},
-		Required:    []string{"messages", "decode_side_checks", "matrix.populated.present", "matrix.populated.absent", "matrix.unpopulated", "annotations_compared"},
+		Required:    []string{"messages", "decode_side_checks", "text_encoding_checks", "matrix.populated.present", "matrix.populated.absent", "matrix.unpopulated", "annotations_compared"},
 		Families: []core.Family{
 			{Name: "annotations", Exhaustive: true, N: func(string) int { return 1 }, Run: func(c *core.Ctx, r *core.Rand, i int) {
 				live := map[string]string{}
@@ -352,7 +382,7 @@ func Spec() *core.Spec {
 				minor := rest % 5
 				populated := (rest/5)%2 == 1
 				ctxIdx := rest / 10
-				g := gen.New(r, gen.Mode{Minor: minor, Gate: false, Text: gen.TextASCII}, refmodel.Gates())
+				g := gen.New(r, gen.Mode{Minor: minor, Gate: false, Text: gen.TextASCII, TextDates: true}, refmodel.Gates())
 				msg, context := build(g, F.Type, ctxIdx, minor)
 				n := 0
 				visitStructs(reflect.ValueOf(msg), F.Type, func(s reflect.Value) {
@@ -404,7 +434,7 @@ func Spec() *core.Spec {
 				return 8000
 			}, Run: func(c *core.Ctx, r *core.Rand, i int) {
 				minor := i % 5
-				g := gen.New(r, gen.Mode{Minor: minor, Gate: false, Text: gen.TextASCII}, refmodel.Gates())
+				g := gen.New(r, gen.Mode{Minor: minor, Gate: false, Text: gen.TextASCII, TextDates: true}, refmodel.Gates())
 				var msg any
 				if (i/5)%2 == 0 {
 					m := g.Request(&gen.Ops[(i/10)%len(gen.Ops)])
